@@ -34,7 +34,8 @@ def configs(tier):
         for rule in SEQUENCE_RULES: add(spec('sequence', rule, 2, 1, 4)); add(spec('sequence', rule, 1, 1, 6, transform=1))
         # general (not provably lower) selection: negative curved weights, with and without level limits - the set must be completed to a lower set on both routes
         for t in ('curved', 'ipcurved', 'qpcurved'):
-            add(spec('sequence', 'leja', 2, 1, 3, t, aniso=4, limits=3)); add(spec('global', 'gauss-legendre', 2, 1, 3, t, aniso=4, limits=3)); add(spec('global', 'clenshaw-curtis', 2, 1, 3, t, aniso=4, limits=3))
+            add(spec('sequence', 'leja', 2, 1, 3, t, aniso=4, limits=3)); add(spec('global', 'gauss-legendre', 2, 1, 3, t, aniso=4, limits=3))
+            if t != 'curved': add(spec('global', 'clenshaw-curtis', 2, 1, 3, t, aniso=4, limits=3))   # (level-based curved selection reaches level 8 of an exponentially growing rule: 1500 symbols)
         add(spec('sequence', 'leja', 2, 1, 3, 'curved', aniso=4)); add(spec('global', 'gauss-legendre', 2, 1, 4, 'ipcurved', aniso=2, limits=2)); add(spec('global', 'leja', 3, 1, 3, 'curved', aniso=4, limits=1))
         add(spec('sequence', 'rleja', 2, 1, 6, 'level', aniso=3)); add(spec('sequence', 'leja', 2, 1, 4, limits=1)); add(spec('global', 'clenshaw-curtis', 2, 1, 4, 'level', aniso=3)); add(spec('sequence', 'min-delta', 3, 1, 5, 'qptotal', aniso=3))   # directions of very different depth
         add(spec('sequence', 'min-lebesgue', 2, 1, 4, 'qptotal', transform=1)); add(spec('sequence', 'leja', 3, 1, 3))
